@@ -100,6 +100,50 @@ func c07inventory(c *Ctx) {
 		r.Check(installed && recomputed, "PATH", key+"/free-recomputed-for-every-type", c.Pos(fn.Pos()), "totals installed, free recomputed per type of the new totals", sprintf("after an inventory update free is not recomputed for every device type (totals installed from the parameter=%v; %s): free != total - used for the types left out", installed, why))
 	}
 
+	r.Rule("PATH(terminated pod): in nodeDeviceCache.updatePod, for a pod with a node that has terminated, deletePod is reached with the NEW version of the pod on every path (the allocation is recorded under the pod's name and released by the annotation of the version handed over; the old version of a coalesced update may carry neither node nor annotation)")
+	if fn := c.Fn(devPkg, "nodeDeviceCache", "updatePod"); fn != nil {
+		f := an.Facts{}
+		nTerm, nNode := 0, 0
+		for _, b := range fn.Blocks {
+			for _, in := range b.Instrs {
+				switch x := in.(type) {
+				case *ssa.Call:
+					if an.ShortCallee(&x.Call) == "IsPodTerminated" && len(x.Call.Args) == 1 && isParamOf(fn, x.Call.Args[0], 1) {
+						f[x] = an.True
+						nTerm++
+					}
+				case *ssa.BinOp:
+					if s, isC := constString(x.Y); isC && s == "" && strings.HasSuffix(an.Path(x.X), ".Spec.NodeName") {
+						for y := range backwardAll(x.X) {
+							if isParamOf(fn, y, 1) {
+								if x.Op == token.EQL {
+									f[x] = an.False
+								} else if x.Op == token.NEQ {
+									f[x] = an.True
+								}
+								nNode++
+							}
+						}
+					}
+				}
+			}
+		}
+		var del ssa.CallInstruction
+		other := false
+		reach := an.Explore(fn, nil, f, func(in ssa.Instruction) bool {
+			if cl, ok := in.(ssa.CallInstruction); ok && an.ShortCallee(cl.Common()) == "deletePod" {
+				if isParamOf(fn, cl.Common().Args[1], 1) {
+					del = cl
+					return true
+				}
+				other = true
+			}
+			return false
+		})
+		r.Check(nTerm > 0 && nNode > 0 && del != nil && len(reach.Returns()) == 0, "PATH", fkey(fn)+"/terminated=>deletePod(new)", c.Pos(fn.Pos()), "a terminated pod is released by its current version",
+			sprintf("a terminated pod is not always released through deletePod(<new version>) (termination test found=%v, node test found=%v, call with the new version found=%v, another version released instead=%v): after a coalesced update the old version is unbound and the pod keeps its devices until the object is deleted", nTerm > 0, nNode > 0, del != nil, other))
+	}
+
 	r.Rule("PATH/FLOW(inventory entry): in nodeDeviceCache.updateNodeDevice the node's record is obtained (created if needed) for the nodeName parameter, its lock is taken, and resetDeviceTotal receives buildDeviceResources of the device parameter, under that lock; in buildDeviceResources the entry is filed under [deviceInfo.Type][*deviceInfo.Minor] of the same element whose Health decides between an empty list (unhealthy) and its Resources")
 	if fn := c.Fn(devPkg, "nodeDeviceCache", "updateNodeDevice"); fn != nil {
 		key := fkey(fn)
